@@ -107,7 +107,78 @@ fn ski_of(c: &x509::Cert) -> Option<Vec<u8>> {
 	})
 }
 
+/// Replaces the last arc of the custom attribute types and otherName type-ids of `spec` (subject,
+/// alternative names, directoryName subtrees) by arcs from the whole u64 range, boundaries of the
+/// base-128 encoding included.
+fn widen_arcs(spec: &mut CertSpec, wide: &[u64]) {
+	if wide.is_empty() {
+		return;
+	}
+	let mut i = 0usize;
+	let mut next = || {
+		i += 1;
+		wide[(i - 1) % wide.len()]
+	};
+	let mut widen_dn = |dn: &mut DnSpec, next: &mut dyn FnMut() -> u64| {
+		// an attribute type appears at most once in an imported name: keep custom types distinct
+		let mut seen: BTreeSet<Vec<u64>> = dn.0.iter().map(|(t, _)| t.oid()).collect();
+		for (t, _) in dn.0.iter_mut() {
+			if let DnTypeSpec::Custom(v) = t {
+				let mut w = v.clone();
+				if w.len() > 2 {
+					*w.last_mut().unwrap() = next();
+					if seen.insert(w.clone()) {
+						*v = w;
+					}
+				}
+			}
+		}
+	};
+	widen_dn(&mut spec.dn, &mut next);
+	for s in spec.sans.iter_mut() {
+		if let SanSpec::OtherName(oid, _) = s {
+			if oid.len() > 2 {
+				*oid.last_mut().unwrap() = next();
+			}
+		}
+	}
+	if let Some(nc) = spec.name_constraints.as_mut() {
+		for st in nc.permitted.iter_mut().chain(nc.excluded.iter_mut()) {
+			if let SubtreeSpec::DirName(d) = st {
+				widen_dn(d, &mut next);
+			}
+		}
+	}
+}
+
+fn wide_arc() -> impl Strategy<Value = u64> {
+	prop_oneof![
+		3 => prop::sample::select(vec![(1u64 << 56) - 1, 1 << 56, (1 << 57) - 1, 1 << 57, (1 << 62) + 5, (1 << 63) - 1, 1 << 63, (1 << 63) + 1, u64::MAX - 1, u64::MAX]),
+		2 => any::<u64>(),
+		1 => (32u32..64).prop_map(|b| 1u64 << b),
+	]
+}
+
+fn generated_case() -> BoxedStrategy<CertCase> {
+	(cert_case(IMPORT_OPTS, true), prop_oneof![3 => Just(vec![]), 1 => proptest::collection::vec(wide_arc(), 1..4)])
+		.prop_map(|(mut c, wide)| {
+			widen_arcs(&mut c.spec, &wide);
+			c
+		})
+		.boxed()
+}
+
+fn has_wide_arc(spec: &CertSpec) -> bool {
+	let dn_wide = |d: &DnSpec| d.0.iter().any(|(t, _)| t.oid().iter().any(|a| *a >= 1 << 32));
+	dn_wide(&spec.dn)
+		|| spec.sans.iter().any(|s| matches!(s, SanSpec::OtherName(o, _) if o.iter().any(|a| *a >= 1 << 32)))
+		|| spec.name_constraints.as_ref().map_or(false, |nc| nc.permitted.iter().chain(nc.excluded.iter()).any(|s| matches!(s, SubtreeSpec::DirName(d) if dn_wide(d))))
+}
+
 pub fn check_generated(case: &CertCase, info: &mut CaseInfo) -> Result<(), String> {
+	if has_wide_arc(&case.spec) {
+		info.class("oid-arc>=2^32");
+	}
 	let fields = case.spec.ext_fields_set();
 	info.nontrivial = fields.len() >= 2;
 	info.class(format!("sparsity:{}", gen::sparsity_class(&case.spec)));
@@ -235,7 +306,7 @@ pub fn def() -> PropertyDef {
 		rule: "Certificates generated by rcgen over the C02 space restricted to what import documents as supported (names with distinct attribute types, OID arcs < 2^32; Other EKUs, custom extensions, CRL DPs and AKI may be present but are not compared), self- and issuer-signed, imported through from_ca_cert_der and _pem; plus CA certificates with the same fields assembled by the harness encoder, signed and pre-accepted by OpenSSL. Oracle: field-by-field equality with the generating parameters (name, IsCa/path length, KU set, standard EKU set, SAN list, name-constraint subtrees incl. CIDR address/mask and directory names, serial as integer, validity truncated to seconds, SKI captured as PreSpecified), PEM = DER, and re-issuing reproduces the fields. Non-trivial = >= 2 compared extension fields set.",
 		assumptions: vec!["the harness decoder and encoder", "OpenSSL parses and verifies every forged CA certificate before it is used"],
 		subs: vec![
-			prop_sub("generated", 48_000, 700_000, || cert_case(IMPORT_OPTS, true), check_generated),
+			prop_sub("generated", 48_000, 700_000, generated_case, check_generated),
 			prop_sub("foreign", 24_000, 300_000, foreign_ca, check_foreign),
 		],
 	}
